@@ -88,7 +88,11 @@ func runCodec(op string) (out string) {
 		}
 	}
 	ref := "err"
-	if msg, err := refMsgCodecs[opcode].Decode(bytes.NewBuffer(body), version); err == nil {
+	if strings.Contains(op, "M:1") && len(body)%7 != 0 {
+		// malformed-stream case: the reference decoder allocates whatever a mutated [bytes] length says (up to 2 GiB)
+		// before it fails; it is consulted on a sample of these cases only
+		ref = "skip"
+	} else if msg, err := refMsgCodecs[opcode].Decode(bytes.NewBuffer(body), version); err == nil {
 		switch m := msg.(type) {
 		case *message.Query:
 			ref = fmt.Sprintf("ok:q=%s;c=%d", hex.EncodeToString([]byte(m.Query)), m.Options.Consistency)
@@ -235,7 +239,7 @@ func genCodec(e *emitter, r *rng.R, n int, tier string) {
 	emit := func(v primitive.ProtocolVersion, op primitive.OpCode, body []byte) {
 		// a [long string] length of up to 2 GiB makes the decoders (library and proxy alike) allocate that much
 		// before looking at the input; keep most malformed QUERY bodies below 16 MiB so the run stays fast
-		if op == primitive.OpCodeQuery && len(body) > 0 && body[0] != 0 && body[0] < 0x80 && len(ops)%10 != 0 {
+		if op == primitive.OpCodeQuery && len(body) > 0 && body[0] != 0 && body[0] < 0x80 && len(ops)%100 != 0 {
 			body = append([]byte{0}, body[1:]...)
 		}
 		ops = append(ops, fmt.Sprintf("V:%d O:%d %s", v, op, hex.EncodeToString(body)))
@@ -249,6 +253,11 @@ func genCodec(e *emitter, r *rng.R, n int, tier string) {
 			continue
 		}
 		emit(v, op, body)
+		valid := emit
+		emit := func(v primitive.ProtocolVersion, op primitive.OpCode, body []byte) {
+			valid(v, op, body)
+			ops[len(ops)-1] = "M:1 " + ops[len(ops)-1]
+		}
 		switch rr.Intn(4) {
 		case 0: // every prefix of a valid body (thorough) or a few of them
 			k := 3
